@@ -193,3 +193,679 @@ Proof.
     simpl. intro H; apply status_eqb_eq in H; contradiction.
   - unfold rec_at in E. rewrite update_rec_absent by exact E. destruct c; apply Rq_refl.
 Qed.
+
+(* ------------------------------------------------------------------ the quiet part of the engine *)
+
+Create HintDb presq.
+
+Section Quiet.
+Variable ev : string -> dict -> evalres.
+
+Ltac quiet_side := intro; repeat split; reflexivity.
+
+Ltac leaf :=
+  first
+    [ apply (preserves_modws Rq); intro; apply Rq_same; simpl; first [reflexivity|apply seq_remove_staged]
+    | apply (preserves_modws Rq); intro; eapply Rq_append; [simpl; reflexivity|reflexivity]
+    | apply (preserves_modify Rq); intro; apply Rq_same; simpl; reflexivity
+    | apply (preserves_modify Rq); intro; apply Rq_same;
+      match goal with |- context [if ?b then _ else _] => destruct b end; reflexivity
+    | assumption
+    | match goal with IH : forall _ _ _, preserves _ _ |- _ => apply IH end
+    | match goal with IH : forall _ _, preserves _ _ |- _ => apply IH end
+    | match goal with IH : forall _ _ _ _, preserves _ _ |- _ => apply IH end
+    | eauto 3 with presq ].
+Ltac walk := pw Rq_refl Rq_trans leaf.
+
+Lemma pq_upd_rec : forall i f, quiet f -> preserves Rq (upd_rec i f).
+Proof. intros i f Hf; unfold upd_rec. apply (preserves_modws Rq); intro c. apply Rq_update_rec; exact Hf. Qed.
+Lemma pq_upd_term : forall i b, preserves Rq (upd_rec i (fun r => r_set_term r b)).
+Proof. intros; apply pq_upd_rec; quiet_side. Qed.
+Hint Resolve pq_upd_term : presq.
+Lemma pq_upd_next : forall i (g : trec -> list (trid * bool)), preserves Rq (upd_rec i (fun r => r_set_next r (g r))).
+Proof. intros; apply pq_upd_rec; quiet_side. Qed.
+Hint Resolve pq_upd_next : presq.
+Lemma pq_upd_out : forall i o, preserves Rq (upd_rec i (fun r => r_set_out r o)).
+Proof. intros; apply pq_upd_rec; quiet_side. Qed.
+Hint Resolve pq_upd_out : presq.
+
+Lemma pq_set_status : forall i s, s <> S_RETRYING -> preserves Rq (set_rec_status i (Some s)).
+Proof. intros i s Hs; unfold set_rec_status. apply (preserves_modws Rq); intro c. apply Rq_set_status; exact Hs. Qed.
+
+Lemma pq_wf_workflow_event : forall st, preserves Rq (wf_workflow_event_M st).
+Proof.
+  intros st c c' r H. unfold wf_workflow_event_M in H.
+  destruct (wf_process_workflow_event (c_graph c) (c_ws c) st) as [[new unr]|e]; inversion H; subst;
+    [apply Rq_same; reflexivity|apply Rq_refl].
+Qed.
+Hint Resolve pq_wf_workflow_event : presq.
+Lemma pq_wf_task_event : forall t route st, preserves Rq (wf_task_event_M t route st).
+Proof.
+  intros t route st c c' r H. unfold wf_task_event_M in H.
+  destruct (wf_process_task_event (c_graph c) (c_ws c) t route st) as [[new unr]|e]; inversion H; subst;
+    [apply Rq_same; reflexivity|apply Rq_refl].
+Qed.
+Hint Resolve pq_wf_task_event : presq.
+Lemma pq_log_entry_error : forall m t r tr res, preserves Rq (log_entry_error m t r tr res).
+Proof. intros; unfold log_entry_error; walk. Qed.
+Hint Resolve pq_log_entry_error : presq.
+Lemma pq_log_error : forall e t r tr, preserves Rq (log_error e t r tr).
+Proof. intros; unfold log_error; auto with presq. Qed.
+Hint Resolve pq_log_error : presq.
+Lemma pq_log_errors : forall es t r tr, preserves Rq (log_errors es t r tr).
+Proof. intros; unfold log_errors; walk. Qed.
+Hint Resolve pq_log_errors : presq.
+Lemma pq_log_unreachable : forall l, preserves Rq (log_unreachable l).
+Proof. intros; unfold log_unreachable; walk. Qed.
+Hint Resolve pq_log_unreachable : presq.
+Lemma pq_get_rec : forall i, preserves Rq (get_rec i).
+Proof. intros; unfold get_rec; walk. Qed.
+Hint Resolve pq_get_rec : presq.
+
+(* a status request moves task statuses by workflow events (never into retrying) and, when refused,
+   puts the statuses of the then active tasks back *)
+Lemma pq_request_status_core : forall st, preserves Rq (request_status_core st).
+Proof.
+  intros st; unfold request_status_core.
+  apply (preserves_bind _ Rq_trans); [apply (preserves_getws _ Rq_refl)|intro w0]. cbv zeta.
+  apply (preserves_bind _ Rq_trans).
+  { apply (preserves_forM _ Rq_refl Rq_trans); intros [i r0].
+    apply (preserves_bind _ Rq_trans); [apply (preserves_getws _ Rq_refl)|intro w].
+    destruct (nth_error (sequence w) i) as [r|]; [|apply (preserves_ret _ Rq_refl)].
+    apply (preserves_bind_v _ Rq_trans _ _ (fun ns => forall s, ns = Some s -> s <> S_RETRYING)).
+    - intros c c' ns H s Hs; subst ns. apply lift_res_inv in H; destruct H as [_ H].
+      eapply workflow_event_never_retrying; symmetry; exact H.
+    - apply (preserves_lift_res _ Rq_refl).
+    - intros [s|] Hns; [apply pq_set_status; apply Hns; reflexivity|apply (preserves_ret _ Rq_refl)]. }
+  intros _.
+  apply (preserves_bind _ Rq_trans); [apply pq_wf_workflow_event|intro unr].
+  apply (preserves_bind _ Rq_trans); [apply pq_log_unreachable|intros _].
+  apply (preserves_bind _ Rq_trans); [apply (preserves_getws _ Rq_refl)|intro w1].
+  destruct (_ && _ && _); [apply (preserves_ret _ Rq_refl)|].
+  destruct (_ && _ && _); [apply (preserves_ret _ Rq_refl)|].
+  destruct (_ && _); [|apply (preserves_ret _ Rq_refl)].
+  apply (preserves_bind _ Rq_trans); [|intro; apply (preserves_raise _ Rq_refl)].
+  apply (preserves_forM_In _ Rq_refl Rq_trans). intros [i r] Hin.
+  unfold ws_tasks_by_status in Hin. apply filter_In in Hin. destruct Hin as [_ Hin].
+  apply andb_prop in Hin; destruct Hin as [Hin _].
+  destruct (r_status r) as [s|]; [|discriminate].
+  apply pq_set_status. intro; subst s. discriminate Hin.
+Qed.
+Hint Resolve pq_request_status_core : presq.
+
+Lemma pq_render_input : forall specs rt rolling errs, preserves Rq (render_input ev specs rt rolling errs).
+Proof. induction specs as [|[n d] specs IH]; intros; simpl; walk. Qed.
+Hint Resolve pq_render_input : presq.
+Lemma pq_render_vars : forall specs rolling rendered errs, preserves Rq (render_vars ev specs rolling rendered errs).
+Proof. induction specs as [|[n d] specs IH]; intros; simpl; walk. Qed.
+Hint Resolve pq_render_vars : presq.
+Lemma pq_ensure_ws : preserves Rq (ensure_ws ev).
+Proof. unfold ensure_ws; walk. Qed.
+Hint Resolve pq_ensure_ws : presq.
+Theorem pq_request_workflow_status : forall st, preserves Rq (request_workflow_status ev st).
+Proof. intros; unfold request_workflow_status; walk. Qed.
+Lemma pq_get_task_context : forall idxs, preserves Rq (get_task_context idxs).
+Proof. intros; unfold get_task_context; walk. Qed.
+Hint Resolve pq_get_task_context : presq.
+Lemma pq_render_task : forall ts ctx, preserves Rq (render_task ev ts ctx).
+Proof. intros; unfold render_task; walk. Qed.
+Hint Resolve pq_render_task : presq.
+Lemma pq_next_task_for : forall s, preserves Rq (next_task_for ev s).
+Proof. intros; unfold next_task_for; walk. Qed.
+Hint Resolve pq_next_task_for : presq.
+Theorem pq_get_next_tasks : preserves Rq (get_next_tasks ev).
+Proof. unfold get_next_tasks; walk. Qed.
+Lemma pq_setup_retry : forall t idxs, preserves Rq (setup_retry ev t idxs).
+Proof. intros; unfold setup_retry; walk. Qed.
+Hint Resolve pq_setup_retry : presq.
+Lemma pq_add_task_state : forall t r i p, preserves Rq (add_task_state ev t r i p).
+Proof. intros; unfold add_task_state; walk. Qed.
+Hint Resolve pq_add_task_state : presq.
+Lemma pq_evaluate_route : forall e r, preserves Rq (evaluate_route e r).
+Proof. intros; unfold evaluate_route; walk. Qed.
+Hint Resolve pq_evaluate_route : presq.
+Lemma pq_evaluate_task_retry : forall r ctx, preserves Rq (evaluate_task_retry ev r ctx).
+Proof. intros; unfold evaluate_task_retry; walk. Qed.
+Hint Resolve pq_evaluate_task_retry : presq.
+Lemma pq_finalize_context : forall ts e ctx, preserves Rq (finalize_context ev ts e ctx).
+Proof. intros; unfold finalize_context; walk. Qed.
+Hint Resolve pq_finalize_context : presq.
+Lemma pq_process_transition : forall t route idx ts ctx e, preserves Rq (process_transition ev t route idx ts ctx e).
+Proof. intros; unfold process_transition; walk. Qed.
+Hint Resolve pq_process_transition : presq.
+Lemma pq_merge_term_contexts : forall l acc, preserves Rq (merge_term_contexts l acc).
+Proof. induction l as [|[i r] l IH]; intros; simpl; walk. Qed.
+Hint Resolve pq_merge_term_contexts : presq.
+Theorem pq_render_workflow_output : preserves Rq (render_workflow_output ev).
+Proof. unfold render_workflow_output, get_workflow_terminal_context; walk. Qed.
+Lemma pq_request_task_rerun : forall t r b, preserves Rq (request_task_rerun ev t r b).
+Proof. intros; unfold request_task_rerun; walk. Qed.
+Hint Resolve pq_request_task_rerun : presq.
+Theorem pq_request_workflow_rerun : forall reqs, preserves Rq (request_workflow_rerun ev reqs).
+Proof. intros; unfold request_workflow_rerun; walk. Qed.
+
+Lemma pq_persist : preserves Rq (persist ev).
+Proof.
+  intros c c' r H. unfold persist in H. apply bind_inv in H. destruct H as [[c1 [u [E1 H]]]|[e [E1 ->]]].
+  - eapply Rq_trans; [eapply pq_ensure_ws; exact E1|].
+    rewrite dec_cstate_enc_total in H. inversion H; subst. apply Rq_same; reflexivity.
+  - eapply pq_ensure_ws; exact E1.
+Qed.
+
+Lemma pq_need_staged : forall s0, preserves Rq (uts_need_staged s0).
+Proof. intros; unfold uts_need_staged; walk. Qed.
+Hint Resolve pq_need_staged : presq.
+Lemma pq_sel1 : forall t s0 e0, preserves Rq (uts_sel1 ev t s0 e0).
+Proof. intros; unfold uts_sel1; walk. Qed.
+Lemma pq_sel2 : forall t evt s0 r1 i, preserves Rq (uts_sel2 ev t evt s0 r1 i).
+Proof. intros; unfold uts_sel2; walk. Qed.
+Lemma pq_unstage : forall t route evt s0, preserves Rq (uts_unstage t route evt s0).
+Proof. intros; unfold uts_unstage; walk. Qed.
+Lemma pq_item : forall t route evt s0, preserves Rq (uts_item t route evt s0).
+Proof. intros; unfold uts_item; walk. Qed.
+Lemma pq_logfail : forall t evt, preserves Rq (uts_logfail t evt).
+Proof. intros; unfold uts_logfail; walk. Qed.
+Lemma pq_completion : forall t route evt ts idx ns, preserves Rq (uts_completion ev t route evt ts idx ns).
+Proof. intros; unfold uts_completion; walk. Qed.
+Lemma pq_queue : forall t route idx ts o n compl, preserves Rq (uts_queue ev t route idx ts o n compl).
+Proof. intros; unfold uts_queue; walk. Qed.
+
+End Quiet.
+
+(* ------------------------------------------------------------------ the task-machine step and the increment *)
+
+Lemma Rmono_upd_at : forall c c' idx r r2, rec_at c idx = Some r -> upd_at c c' idx r2 ->
+  r_id r2 = r_id r -> r_route r2 = r_route r -> retry_mono (r_retry r) (r_retry r2) -> Rmono c c'.
+Proof.
+  intros c c' idx r r2 Hr [H2 Ho] Hi Hro Hm j x Hx. destruct (Nat.eq_dec j idx) as [->|Hj].
+  - rewrite Hr in Hx; inversion Hx; subst x. exists r2; auto.
+  - exists x; rewrite Ho by exact Hj. repeat split; auto. apply retry_mono_refl.
+Qed.
+
+Lemma Rent_upd_at : forall c c' idx r r2, rec_at c idx = Some r -> upd_at c c' idx r2 ->
+  r_id r2 = r_id r -> r_route r2 = r_route r -> retry_mono (r_retry r) (r_retry r2) ->
+  (retrying_of (Some r) = false -> retrying_of (Some r2) = true ->
+   exists rr2, r_retry r2 = Some rr2 /\ py_is_int (rr_count rr2) = true /\
+               (Z.of_nat (tally_of (Some r)) < py_int_value (rr_count rr2))%Z /\ tally_of (Some r) + 1 <= rr_tally rr2) ->
+  Rent c c'.
+Proof.
+  intros c c' idx r r2 Hr Hu Hi Hro Hm He. split; [eapply Rmono_upd_at; eassumption|].
+  intros j H1 H2. destruct (Nat.eq_dec j idx) as [->|Hj].
+  - unfold retr in H1, H2. destruct Hu as [Hu _]. rewrite Hr in H1. rewrite Hu in H2.
+    destruct (He H1 H2) as [rr2 [E1 [E2 [E3 E4]]]]. exists r2, rr2. unfold tal. rewrite Hr. auto.
+  - rewrite (retr_other _ _ _ _ _ Hu Hj) in H2. congruence.
+Qed.
+
+Definition allowed (r : trec) : Prop := retry_allowed r true.
+
+Lemma allowed_retry_eq : forall r r', r_retry r' = r_retry r -> allowed r -> allowed r'.
+Proof. intros r r' E H Ht. destruct (H Ht) as [rr Hrr]. exists rr. rewrite E; exact Hrr. Qed.
+
+Lemma setst_upd_at : forall idx ns c c1 res r, rec_at c idx = Some r -> uts_setst idx ns c = (c1, res) ->
+  upd_at c c1 idx (stepped r ns) /\ tasks (c_ws c1) = tasks (c_ws c).
+Proof.
+  intros idx ns c c1 res r Hr H. unfold uts_setst in H. destruct ns as [s|].
+  - unfold set_rec_status, modws in H; inversion H; subst. split.
+    + exact (upd_at_update_rec c idx (fun r => r_set_status r (Some s)) r Hr).
+    + simpl. apply tasks_update_rec.
+  - inversion H; subst. split; [split; [exact Hr|auto]|reflexivity].
+Qed.
+
+Lemma retrying_upd_at : forall t route idx r st c c' res, rec_at c idx = Some r ->
+  uts_retrying t route idx r st c = (c', res) ->
+  tasks (c_ws c') = tasks (c_ws c) /\
+  exists r2, upd_at c c' idx r2 /\ r_id r2 = r_id r /\ r_route r2 = r_route r /\ r_status r2 = r_status r /\
+    (r_retry r2 = r_retry r \/
+     (st = S_RETRYING /\ exists rr rr2, r_retry r = Some rr /\ r_retry r2 = Some rr2 /\
+                                         rr_count rr2 = rr_count rr /\ rr_tally rr2 = S (rr_tally rr))) /\
+    (st = S_RETRYING -> r_retry r <> None -> r_retry r2 <> r_retry r).
+Proof.
+  intros t route idx r st c c' res Hr H. unfold uts_retrying in H.
+  assert (Same : c' = c -> tasks (c_ws c') = tasks (c_ws c) /\
+     exists r2, upd_at c c' idx r2 /\ r_id r2 = r_id r /\ r_route r2 = r_route r /\ r_status r2 = r_status r /\
+       (r_retry r2 = r_retry r \/
+        (st = S_RETRYING /\ exists rr rr2, r_retry r = Some rr /\ r_retry r2 = Some rr2 /\
+                                            rr_count rr2 = rr_count rr /\ rr_tally rr2 = S (rr_tally rr)))).
+  { intros ->. split; [reflexivity|]. exists r. split; [split; [exact Hr|auto]|]. do 3 (split; [reflexivity|]). left; reflexivity. }
+  destruct (status_eqb st S_RETRYING) eqn:E.
+  2: { inversion H; subst. destruct (Same eq_refl) as [S1 [r2 [S2 [S3 [S4 [S5 S6]]]]]].
+       split; [exact S1|]. exists r2. do 5 (split; [assumption|]).
+       intros Hs; subst st. rewrite status_eqb_refl in E; discriminate. }
+  apply status_eqb_eq in E.
+  destruct (r_retry r) as [rr|] eqn:Er.
+  2: { inversion H; subst. destruct (Same eq_refl) as [S1 [r2 [S2 [S3 [S4 [S5 S6]]]]]].
+       split; [exact S1|]. exists r2. do 5 (split; [assumption|]). intros _ Hn; congruence. }
+  cbv zeta in H. unfold bind, upd_rec, modws in H. cbv beta iota in H. inversion H; subst c' res; clear H.
+  split; [simpl; rewrite tasks_remove_staged; simpl; apply tasks_update_rec|].
+  eexists. split; [|split; [|split; [|split; [|split]]]].
+  - pose proof (upd_at_update_rec c idx (fun r0 => r_set_retry r0 (Some {| rr_when := rr_when rr; rr_count := rr_count rr;
+                  rr_delay := rr_delay rr; rr_tally := S (rr_tally rr) |})) r Hr) as [U1 U2].
+    split; unfold rec_at in *; simpl; rewrite seq_remove_staged; [exact U1|exact U2].
+  - reflexivity.
+  - reflexivity.
+  - reflexivity.
+  - right. split; [exact E|]. eexists; eexists; split; [reflexivity|]. split; [simpl; reflexivity|].
+    split; reflexivity.
+  - intros _ _. simpl. intro Hc.
+    apply (f_equal (fun o => match o with Some x => rr_tally x | None => 0 end)) in Hc. simpl in Hc. lia.
+Qed.
+
+(* the two steps together: status set by the machine, tally incremented if the status is then retrying *)
+Lemma step_rel : forall t route idx ns c c1 res1 c2 res2 r, rec_at c idx = Some r ->
+  uts_setst idx ns c = (c1, res1) ->
+  uts_retrying t route idx (stepped r ns) (rstatus (stepped r ns)) c1 = (c2, res2) ->
+  tasks (c_ws c2) = tasks (c_ws c) /\ Rmono c c2 /\ ((ns = Some S_RETRYING -> allowed r) -> Rent c c2).
+Proof.
+  intros t route idx ns c c1 res1 c2 res2 r Hr E1 E2.
+  destruct (setst_upd_at _ _ _ _ _ _ Hr E1) as [U1 T1].
+  destruct (retrying_upd_at _ _ _ _ _ _ _ _ (proj1 U1) E2) as [T2 [r2 [U2 [I2 [O2 [S2 [D2 N2]]]]]]].
+  pose proof (upd_at_trans _ _ _ _ _ _ U1 U2) as U.
+  assert (Hid : r_id r2 = r_id r) by (rewrite I2; destruct ns; reflexivity).
+  assert (Hro : r_route r2 = r_route r) by (rewrite O2; destruct ns; reflexivity).
+  assert (Hm : retry_mono (r_retry r) (r_retry r2)).
+  { destruct D2 as [D2|[_ [rr [rr2 [A1 [A2 [A3 A4]]]]]]].
+    - apply retry_mono_eq. rewrite D2. apply stepped_retry.
+    - rewrite stepped_retry in A1. rewrite A1, A2. simpl. split; [exact A3|lia]. }
+  split; [congruence|]. split; [eapply Rmono_upd_at; eassumption|].
+  intro Hal. eapply Rent_upd_at; try eassumption.
+  intros Hb Ha. simpl in Hb, Ha. rewrite S2 in Ha.
+  assert (Hns : ns = Some S_RETRYING).
+  { destruct ns as [s|]; simpl in Ha; [apply status_eqb_eq in Ha; subst; reflexivity|]. congruence. }
+  specialize (Hal Hns). destruct (Hal eq_refl) as [rr [Hrr [Hint Hlt]]].
+  assert (Hst : rstatus (stepped r ns) = S_RETRYING) by (subst ns; reflexivity).
+  destruct D2 as [D2|[_ [rr' [rr2 [A1 [A2 [A3 A4]]]]]]].
+  - exfalso. apply (N2 Hst); [rewrite stepped_retry, Hrr; discriminate|exact D2].
+  - rewrite stepped_retry, Hrr in A1; inversion A1; subst rr'.
+    exists rr2. simpl. rewrite Hrr. rewrite A3, A4. repeat split; try assumption; lia.
+Qed.
+
+(* ------------------------------------------------------------------ which calls may enter retrying *)
+
+(* events from outside: anything but the engine's own retry request *)
+Definition external_event (evt : event) : bool :=
+  match evt with EvEngine n _ => negb (String.eqb n EV_TASK_RETRY_REQUESTED) | _ => true end.
+
+Lemma provider_external : forall evt, provider_event evt = true -> external_event evt = true.
+Proof. intros [| | |]; simpl; intro H; try reflexivity; discriminate. Qed.
+
+Definition rec_ok2 (evt : event) (r : trec) : Prop :=
+  r_status r = None \/ external_event evt = true \/ allowed r.
+
+Definition entry2 (evt : event) (c : cstate) (t : string) (route : nat) : Prop :=
+  external_event evt = true \/ is_engine_command t = true \/
+  forall i r, ws_task_idx (c_ws c) t route = Some i -> rec_at c i = Some r -> allowed r.
+
+Lemma entry2_Rnr : forall evt c c' t route, entry2 evt c t route -> Rnr c c' -> entry2 evt c' t route.
+Proof.
+  intros evt c c' t route [H|[H|H]] [Ht Hs]; [left; exact H|right; left; exact H|right; right].
+  intros i r' Hp Hn. unfold ws_task_idx in *. rewrite Ht in Hp. destruct (Hs _ _ Hn) as [r [Hr [Er _]]].
+  eapply allowed_retry_eq; [exact Er|]. eapply H; eassumption.
+Qed.
+
+(* the machine sets retrying only on a record for which the retry was decided *)
+Lemma machine_enters_allowed : forall w r evt, rec_ok2 evt r ->
+  task_process_event w r evt = Val (Some S_RETRYING) -> allowed r.
+Proof.
+  intros w r evt Hok H. destruct Hok as [Hnone|[Hext|Hal]]; [exfalso|exfalso|exact Hal].
+  - destruct (tpe_step _ _ _ _ H) as [name Hn]. unfold rstatus in Hn. rewrite Hnone in Hn.
+    apply F_task_retrying_only_by_retry in Hn. destruct Hn as [_ Hn]. exact (unset_not_completed Hn).
+  - destruct evt as [st|st res|item st res acc|n st].
+    + exact (workflow_event_never_retrying _ _ _ _ H eq_refl).
+    + destruct (tpe_provider w r (EvAction st res) _ eq_refl H) as [name [Hn [Hne _]]].
+      apply F_task_retrying_only_by_retry in Hn. exact (Hne (proj1 Hn)).
+    + destruct (tpe_provider w r (EvItem item st res acc) _ eq_refl H) as [name [Hn [Hne _]]].
+      apply F_task_retrying_only_by_retry in Hn. exact (Hne (proj1 Hn)).
+    + apply tpe_engine in H. apply F_task_retrying_only_by_retry in H. destruct H as [H _]. subst n.
+      vm_compute in Hext. discriminate.
+Qed.
+
+Section Entries.
+Variable ev : string -> dict -> evalres.
+
+Ltac binv H c1 a E :=
+  apply bind_inv in H; destruct H as [[c1 [a [E H]]]|[?e [E ->]]].
+
+Definition decided2 (c : cstate) (t : string) (route : nat) (p : pre_out) : Prop :=
+  forall ctx, po_compl p = Some (ctx, true) ->
+    ws_task_idx (c_ws c) t route = Some (po_idx p) /\ exists r, rec_at c (po_idx p) = Some r /\ allowed r.
+
+Lemma machine_both : forall t route evt ts idx c c' res,
+  pre_machine ev t route evt ts idx c = (c', res) ->
+  Rmono c c' /\
+  ((forall r, rec_at c idx = Some r -> rec_ok2 evt r) -> ws_task_idx (c_ws c) t route = Some idx ->
+   Rent c c' /\ forall p, res = Val p -> decided2 c' t route p).
+Proof.
+  intros t route evt ts idx c c' res H. unfold pre_machine in H.
+  assert (Stop : forall x, c' = c -> res = Exc x ->
+    Rmono c c' /\ ((forall r, rec_at c idx = Some r -> rec_ok2 evt r) -> ws_task_idx (c_ws c) t route = Some idx ->
+                   Rent c c' /\ forall p, res = Val p -> decided2 c' t route p)).
+  { intros x -> ->. split; [apply Rmono_refl|]. intros _ _. split; [apply Rent_refl|discriminate]. }
+  binv H c0 r E0; [|apply get_rec_state in E0; eapply Stop; [exact E0|reflexivity]].
+  apply get_rec_inv in E0; destruct E0 as [-> Hr].
+  binv H c0 w E0; [|inversion E0]. inversion E0; subst c0 w; clear E0.
+  binv H c0 ns E0; [|apply lift_res_inv in E0; destruct E0 as [-> _]; eapply Stop; reflexivity].
+  apply lift_res_inv in E0; destruct E0 as [-> Ens]. symmetry in Ens.
+  binv H c1 u1 E1; [|destruct (setst_inv _ _ _ _ _ _ E1 Hr) as [F _]; discriminate F].
+  destruct (setst_inv _ _ _ _ _ _ E1 Hr) as [_ [_ [_ Hn1]]]. fold (stepped r ns) in Hn1.
+  binv H c0 r' E0.
+  2: { unfold get_rec, bind, getws in E0. rewrite Hn1 in E0. inversion E0. }
+  apply get_rec_inv in E0; destruct E0 as [-> Hr']. rewrite Hn1 in Hr'; inversion Hr'; subst r'; clear Hr'.
+  assert (Both : forall c2 res2, uts_retrying t route idx (stepped r ns) (rstatus (stepped r ns)) c1 = (c2, res2) ->
+     tasks (c_ws c2) = tasks (c_ws c) /\ Rmono c c2 /\
+     ((forall r, rec_at c idx = Some r -> rec_ok2 evt r) -> Rent c c2)).
+  { intros c2 res2 E2. destruct (step_rel _ _ _ _ _ _ _ _ _ _ Hr E1 E2) as [T [Mo En]].
+    split; [exact T|]. split; [exact Mo|]. intro Hok. apply En. intro Hns; subst ns.
+    eapply machine_enters_allowed; [apply Hok; exact Hr|exact Ens]. }
+  binv H c2 u2 E2.
+  2: { destruct (Both _ _ E2) as [_ [Mo En]]. split; [exact Mo|]. intros Hok _. split; [apply En; exact Hok|discriminate]. }
+  destruct (Both _ _ E2) as [T2 [Mo2 En2]].
+  binv H c3 compl E3.
+  2: { pose proof (pq_completion ev _ _ _ _ _ _ _ _ _ E3) as Q. split; [eapply Rmono_trans; [exact Mo2|apply Rq_Rmono; exact Q]|].
+       intros Hok _. split; [eapply Rent_trans; [apply En2; exact Hok|apply Rq_Rent; exact Q]|discriminate]. }
+  pose proof (pq_completion ev _ _ _ _ _ _ _ _ _ E3) as Q.
+  inversion H; subst c' res; clear H.
+  split; [eapply Rmono_trans; [exact Mo2|apply Rq_Rmono; exact Q]|].
+  intros Hok Hp. split; [eapply Rent_trans; [apply En2; exact Hok|apply Rq_Rent; exact Q]|].
+  intros p Hpv; inversion Hpv; subst p; clear Hpv. intros ctx Hc; simpl in *.
+  destruct (completion_inv _ _ _ _ _ _ _ _ _ _ E3) as [[_ [Hn0 _]]|[_ [c4 [r4 [ctx4 [b4 [[Ks Kt] [_ [Hr4 [Hc4 [Hb4 _]]]]]]]]]]].
+  - rewrite Hn0 in Hc; discriminate.
+  - rewrite Hc4 in Hc; inversion Hc; subst ctx4 b4. destruct (Hb4 eq_refl) as [-> [_ Hal]].
+    split; [|exists r4; split; [exact Hr4|exact Hal]].
+    unfold ws_task_idx in *. rewrite Kt, T2. exact Hp.
+Qed.
+
+Lemma main_both : forall t route evt ts s0 e0 c c' res,
+  pre_main ev t route evt ts s0 e0 c = (c', res) ->
+  Rmono c c' /\
+  ((forall s, s0 = Some s -> s_route s = route) -> e0 = ws_task_idx (c_ws c) t route -> entry2 evt c t route ->
+   Rent c c' /\ forall p, res = Val p -> decided2 c' t route p).
+Proof.
+  intros t route evt ts s0 e0 c c' res H. unfold pre_main in H.
+  assert (Stop : forall x, Rq c c' -> res = Exc x ->
+    Rmono c c' /\ ((forall s, s0 = Some s -> s_route s = route) -> e0 = ws_task_idx (c_ws c) t route -> entry2 evt c t route ->
+                   Rent c c' /\ forall p, res = Val p -> decided2 c' t route p)).
+  { intros x Q ->. split; [apply Rq_Rmono; exact Q|]. intros _ _ _. split; [apply Rq_Rent; exact Q|discriminate]. }
+  binv H c1 idx1 E1; [|eapply Stop; [eapply pq_sel1; exact E1|reflexivity]].
+  pose proof (pq_sel1 ev _ _ _ _ _ _ E1) as Q1.
+  binv H c0 r1 E0; [|apply get_rec_state in E0; subst; eapply Stop; [exact Q1|reflexivity]].
+  apply get_rec_inv in E0; destruct E0 as [-> Hr1].
+  binv H c2 idx E2; [|eapply Stop; [eapply Rq_trans; [exact Q1|eapply pq_sel2; exact E2]|reflexivity]].
+  pose proof (Rq_trans _ _ _ Q1 (pq_sel2 ev _ _ _ _ _ _ _ _ E2)) as Q2.
+  binv H c3 u3 E3; [|eapply Stop; [eapply Rq_trans; [exact Q2|eapply pq_unstage; exact E3]|reflexivity]].
+  pose proof (Rq_trans _ _ _ Q2 (pq_unstage _ _ _ _ _ _ _ E3)) as Q3.
+  binv H c4 u4 E4; [|eapply Stop; [eapply Rq_trans; [exact Q3|eapply pq_item; exact E4]|reflexivity]].
+  pose proof (Rq_trans _ _ _ Q3 (pq_item _ _ _ _ _ _ _ E4)) as Q4.
+  binv H c5 u5 E5; [|eapply Stop; [eapply Rq_trans; [exact Q4|eapply pq_logfail; exact E5]|reflexivity]].
+  pose proof (Rq_trans _ _ _ Q4 (pq_logfail _ _ _ _ _ E5)) as Q5.
+  destruct (machine_both _ _ _ _ _ _ _ _ H) as [Mo En].
+  split; [eapply Rmono_trans; [apply Rq_Rmono; exact Q5|exact Mo]|].
+  intros Hroute He0 Hok.
+  assert (K : Rk c2 c5).
+  { eapply Rk_trans; [eapply pk_unstage; exact E3|]. eapply Rk_trans; [eapply pk_item; exact E4|eapply pk_logfail; exact E5]. }
+  destruct (select_inv ev _ _ _ _ _ _ _ _ _ _ _ _ Hroute He0 E1 Hr1 E2 K) as [r [Hn [Hp Hd]]].
+  assert (G : Rent c5 c' /\ forall p, res = Val p -> decided2 c' t route p).
+  { apply En; [|exact Hp]. intros r' Hr'. unfold rec_at in Hr'. rewrite Hn in Hr'; inversion Hr'; subst r'; clear Hr'.
+    destruct Hd as [[He [Hc [Ks Kt]]]|[Hd _]]; [|left; exact Hd].
+    destruct Hok as [Hok|[Hok|Hok]]; [right; left; exact Hok|congruence|right; right].
+    apply (Hok idx); [rewrite <- He0; exact He|unfold rec_at; rewrite <- Ks; exact Hn]. }
+  destruct G as [G1 G2]. split; [eapply Rent_trans; [apply Rq_Rent; exact Q5|exact G1]|exact G2].
+Qed.
+
+Lemma prefix_both : forall t route evt c c' res,
+  uts_prefix ev t route evt c = (c', res) ->
+  Rmono c c' /\ (entry2 evt c t route -> Rent c c' /\ forall p, res = Val p -> decided2 c' t route p).
+Proof.
+  intros t route evt c c' res H. unfold uts_prefix in H.
+  assert (Stop : forall x, Rq c c' -> res = Exc x ->
+    Rmono c c' /\ (entry2 evt c t route -> Rent c c' /\ forall p, res = Val p -> decided2 c' t route p)).
+  { intros x Q ->. split; [apply Rq_Rmono; exact Q|]. intros _. split; [apply Rq_Rent; exact Q|discriminate]. }
+  binv H c1 u1 E1; [|eapply Stop; [eapply pq_ensure_ws; exact E1|reflexivity]].
+  pose proof (pq_ensure_ws ev _ _ _ E1) as Q1.
+  binv H c0 cst E0; [|inversion E0]. inversion E0; subst c0 cst; clear E0.
+  destruct (negb (g_has_task (c_graph c1) t)); [inversion H; subst; eapply Stop; [exact Q1|reflexivity]|].
+  cbv zeta in H.
+  binv H c2 ts E2.
+  2: { destruct (spec_get_task (c_spec c1) t); inversion E2; subst. eapply Stop; [exact Q1|reflexivity]. }
+  assert (c2 = c1) as -> by (destruct (spec_get_task (c_spec c1) t); inversion E2; reflexivity).
+  assert (Hroute : forall s, get_staged_task (c_ws c1) t route = Some s -> s_route s = route)
+    by (intros s Hs; apply get_staged_matches in Hs; apply Hs).
+  remember (get_staged_task (c_ws c1) t route) as s0 eqn:Es0.
+  remember (ws_task_idx (c_ws c1) t route) as e0 eqn:Ee0.
+  assert (G : pre_main ev t route evt ts s0 e0 c1 = (c', res) ->
+    Rmono c c' /\ (entry2 evt c t route -> Rent c c' /\ forall p, res = Val p -> decided2 c' t route p)).
+  { intro Hm. destruct (main_both _ _ _ _ _ _ _ _ _ Hm) as [Mo En].
+    split; [eapply Rmono_trans; [apply Rq_Rmono; exact Q1|exact Mo]|]. intro Hok.
+    destruct (En Hroute Ee0 (entry2_Rnr _ _ _ _ _ Hok (pn_ensure_ws ev _ _ _ E1))) as [G1 G2].
+    split; [eapply Rent_trans; [apply Rq_Rent; exact Q1|exact G1]|exact G2]. }
+  destruct s0, e0; try (apply G; exact H). inversion H; subst; eapply Stop; [exact Q1|reflexivity].
+Qed.
+
+(* the rest of the tail, for any preorder that contains the quiet relation *)
+Lemma tail_rest_pres : forall (R : cstate -> cstate -> Prop), (forall c, R c c) -> (forall x y z, R x y -> R y z -> R x z) ->
+  (forall c c', Rq c c' -> R c c') ->
+  forall rec, (forall q, Forall cmd_pair q -> preserves R (forM_ q (uts_call rec))) ->
+  forall t route ts idx old new compl,
+  preserves R
+   (queue <- uts_queue ev t route idx ts old new compl ;;
+    r <- get_rec idx ;;
+    st <- (match r_status r with Some s => ret s | None => raise (exn_key "status") end) ;;
+    unreachable <- wf_task_event_M t route st ;;
+    log_unreachable unreachable ;;;
+    forM_ queue (uts_call rec) ;;;
+    w <- getws ;;
+    if status_in (wstatus w) COMPLETED_STATUSES then upd_rec idx (fun r => r_set_term r true) else ret tt).
+Proof.
+  intros R Rr Rtr Hsub rec Hloop t route ts idx old new compl.
+  assert (W : forall A (m : M A), preserves Rq m -> preserves R m) by (intros A m; apply preserves_weaken; exact Hsub).
+  apply (preserves_bind_v _ Rtr _ _ (Forall cmd_pair)); [apply queue_cmds|apply W; apply pq_queue|intros q Hq].
+  apply (preserves_bind _ Rtr); [apply W; apply pq_get_rec|intro r].
+  apply (preserves_bind _ Rtr);
+    [destruct (r_status r); [apply (preserves_ret _ Rr)|apply (preserves_raise _ Rr)]|intro st].
+  apply (preserves_bind _ Rtr); [apply W; apply pq_wf_task_event|intro unr].
+  apply (preserves_bind _ Rtr); [apply W; apply pq_log_unreachable|intros _].
+  apply (preserves_bind _ Rtr); [apply Hloop; exact Hq|intros _].
+  apply (preserves_bind _ Rtr); [apply (preserves_getws _ Rr)|intro w].
+  destruct (status_in (wstatus w) COMPLETED_STATUSES); [apply W; apply pq_upd_term|apply (preserves_ret _ Rr)].
+Qed.
+
+(* (a) for the re-entrant call: every event, every state *)
+Definition callm (rec : string -> nat -> event -> M unit) : Prop := forall t route evt, preserves Rmono (rec t route evt).
+
+Lemma body_mono : forall rec, callm rec -> callm (uts_body ev rec).
+Proof.
+  intros rec Hrec t route evt c c' r H. rewrite body_eq in H.
+  binv H c1 p E1; [|apply (proj1 (prefix_both _ _ _ _ _ _ E1))].
+  eapply Rmono_trans; [apply (proj1 (prefix_both _ _ _ _ _ _ E1))|]. unfold tail_of, uts_tail in H.
+  assert (P : forall compl', preserves Rmono
+     (queue <- uts_queue ev t route (po_idx p) (po_ts p) (po_old p) (po_new p) compl' ;;
+      r <- get_rec (po_idx p) ;;
+      st <- (match r_status r with Some s => ret s | None => raise (exn_key "status") end) ;;
+      unreachable <- wf_task_event_M t route st ;;
+      log_unreachable unreachable ;;;
+      forM_ queue (uts_call rec) ;;;
+      w <- getws ;;
+      if status_in (wstatus w) COMPLETED_STATUSES then upd_rec (po_idx p) (fun r => r_set_term r true) else ret tt)).
+  { intro compl'. apply (tail_rest_pres Rmono Rmono_refl Rmono_trans Rq_Rmono).
+    intros q _. apply (preserves_forM _ Rmono_refl Rmono_trans). intros [n rt]. unfold uts_call.
+    destruct (engine_event n); [apply Hrec|apply (preserves_raise _ Rmono_refl)]. }
+  destruct (po_compl p) as [[ctx [|]]|]; [eapply Hrec; exact H|exact (P _ _ _ _ H)|exact (P _ _ _ _ H)].
+Qed.
+
+Lemma uts_fuel_mono : forall fuel, callm (update_task_state_fuel ev fuel).
+Proof.
+  induction fuel as [|fuel IH]; [intros t route evt; apply (preserves_raise _ Rmono_refl)|].
+  intros t route evt. rewrite uts_unfold. apply body_mono; exact IH.
+Qed.
+
+(* (b) for the re-entrant call *)
+Definition call2 (rec : string -> nat -> event -> M unit) : Prop :=
+  forall t route evt c c' r, entry2 evt c t route -> rec t route evt c = (c', r) -> Rent c c'.
+
+Lemma body_ent : forall rec, call2 rec -> call2 (uts_body ev rec).
+Proof.
+  intros rec Hrec t route evt c c' r Hok H. rewrite body_eq in H.
+  binv H c1 p E1; [|apply (proj2 (prefix_both _ _ _ _ _ _ E1) Hok)].
+  destruct (proj2 (prefix_both _ _ _ _ _ _ E1) Hok) as [En Hd]. specialize (Hd p eq_refl).
+  eapply Rent_trans; [exact En|]. unfold tail_of, uts_tail in H.
+  assert (P : forall compl', preserves Rent
+     (queue <- uts_queue ev t route (po_idx p) (po_ts p) (po_old p) (po_new p) compl' ;;
+      r <- get_rec (po_idx p) ;;
+      st <- (match r_status r with Some s => ret s | None => raise (exn_key "status") end) ;;
+      unreachable <- wf_task_event_M t route st ;;
+      log_unreachable unreachable ;;;
+      forM_ queue (uts_call rec) ;;;
+      w <- getws ;;
+      if status_in (wstatus w) COMPLETED_STATUSES then upd_rec (po_idx p) (fun r => r_set_term r true) else ret tt)).
+  { intro compl'. apply (tail_rest_pres Rent Rent_refl Rent_trans Rq_Rent).
+    intros q Hq. apply (preserves_forM_In _ Rent_refl Rent_trans). intros [n rt] Hin.
+    rewrite Forall_forall in Hq. specialize (Hq _ Hin). unfold uts_call.
+    destruct (engine_event n); [|apply (preserves_raise _ Rent_refl)].
+    intros x x' rr Hx. eapply Hrec; [right; left; exact Hq|exact Hx]. }
+  destruct (po_compl p) as [[ctx [|]]|] eqn:Ec; [|exact (P _ _ _ _ H)|exact (P _ _ _ _ H)].
+  eapply Hrec; [|exact H]. right; right. intros i x Hp Hx.
+  destruct (Hd ctx Ec) as [Hp' [x' [Hx' Hal]]].
+  rewrite Hp in Hp'; inversion Hp'; subst i. rewrite Hx in Hx'; inversion Hx'; subst x'. exact Hal.
+Qed.
+
+Lemma uts_fuel_ent : forall fuel, call2 (update_task_state_fuel ev fuel).
+Proof.
+  induction fuel as [|fuel IH]; [intros t route evt c c' r _ H; inversion H; subst; apply Rent_refl|].
+  intros t route evt. rewrite uts_unfold. apply body_ent; exact IH.
+Qed.
+
+End Entries.
+
+(* ------------------------------------------------------------------ API operations and histories *)
+
+Section History.
+Variable ev : string -> dict -> evalres.
+
+Definition op_external (op : api_op) : Prop :=
+  match op with OpEvent _ _ e => external_event e = true | _ => True end.
+
+Lemma bind_ret_pres : forall (R : cstate -> cstate -> Prop), (forall c, R c c) -> (forall x y z, R x y -> R y z -> R x z) ->
+  forall A B (m : M A) (k : A -> B), preserves R m -> preserves R (a <- m ;; ret (k a)).
+Proof. intros R Rr Rtr A B m k Hm. apply (preserves_bind _ Rtr); [exact Hm|intro; apply (preserves_ret _ Rr)]. Qed.
+
+Lemma api_exec_quiet : forall op, (forall t r e, op <> OpEvent t r e) -> preserves Rq (api_exec ev op).
+Proof.
+  intros op Hne. destruct op; cbn [api_exec].
+  - apply (bind_ret_pres _ Rq_refl Rq_trans _ _ _ (fun _ => RUnit)); apply pq_ensure_ws.
+  - apply (bind_ret_pres _ Rq_refl Rq_trans _ _ _ (fun _ => RUnit)); apply pq_request_workflow_status.
+  - apply (bind_ret_pres _ Rq_refl Rq_trans _ _ _ ROffers); apply pq_get_next_tasks.
+  - exfalso; eapply Hne; reflexivity.
+  - apply (bind_ret_pres _ Rq_refl Rq_trans _ _ _ (fun _ => RUnit)); apply pq_render_workflow_output.
+  - apply (bind_ret_pres _ Rq_refl Rq_trans _ _ _ (fun _ => RUnit)); apply pq_request_workflow_rerun.
+  - apply (bind_ret_pres _ Rq_refl Rq_trans _ _ _ (fun _ => RUnit)); apply pq_persist.
+Qed.
+
+(* (a) every API operation, every event *)
+Theorem api_exec_mono : forall op, preserves Rmono (api_exec ev op).
+Proof.
+  intro op. destruct op; try (apply (preserves_weaken _ _ Rq_Rmono); apply api_exec_quiet; intros; discriminate).
+  cbn [api_exec]. apply (bind_ret_pres _ Rmono_refl Rmono_trans _ _ _ (fun _ => RUnit)).
+  unfold update_task_state. apply uts_fuel_mono.
+Qed.
+
+(* (b) every API operation whose event (if any) comes from outside *)
+Theorem api_exec_ent : forall op, op_external op -> preserves Rent (api_exec ev op).
+Proof.
+  intros op Hx. destruct op; try (apply (preserves_weaken _ _ Rq_Rent); apply api_exec_quiet; intros; discriminate).
+  cbn [api_exec]. apply (bind_ret_pres _ Rent_refl Rent_trans _ _ _ (fun _ => RUnit)).
+  unfold update_task_state. intros c c' r H. eapply uts_fuel_ent; [left; exact Hx|exact H].
+Qed.
+
+(* (c) counting entries over a history *)
+Definition entry_bit (c c' : cstate) (idx : nat) : nat :=
+  if negb (retr c idx) && retr c' idx then 1 else 0.
+
+Fixpoint entries (ops : list api_op) (c : cstate) (idx : nat) : nat :=
+  match ops with
+  | [] => 0
+  | op :: ops' => let c' := fst (api_exec ev op c) in entry_bit c c' idx + entries ops' c' idx
+  end.
+
+(* t0: the tally when counting started; k: entries counted so far *)
+Definition good (t0 k : nat) (c : cstate) (idx : nat) : Prop :=
+  t0 + k <= tal c idx /\
+  (k = 0 \/ exists r rr, rec_at c idx = Some r /\ r_retry r = Some rr /\ py_is_int (rr_count rr) = true /\
+                         (Z.of_nat (t0 + k) <= py_int_value (rr_count rr))%Z).
+
+Lemma good_step : forall t0 k c c' idx, Rent c c' -> good t0 k c idx -> good t0 (k + entry_bit c c' idx) c' idx.
+Proof.
+  intros t0 k c c' idx [Mo En] [G1 G2]. unfold entry_bit.
+  pose proof (tal_mono _ _ idx Mo) as Ht.
+  destruct (retr c idx) eqn:Rc; cbn [negb andb]; [|destruct (retr c' idx) eqn:Rc'].
+  - rewrite Nat.add_0_r. split; [lia|]. destruct G2 as [G2|[r [rr [Hr [Hrr [Hi Hle]]]]]]; [left; exact G2|right].
+    destruct (Mo _ _ Hr) as [r' [Hr' [_ [_ Hm]]]]. rewrite Hrr in Hm.
+    destruct (r_retry r') as [rr'|] eqn:Hrr'; simpl in Hm; [|tauto]. destruct Hm as [Hc _].
+    exists r', rr'. rewrite Hc. auto.
+  - destruct (En idx Rc Rc') as [r' [rr' [Hr' [Hrr' [Hi [Hlt Hge]]]]]].
+    split; [unfold tal at 1; rewrite Hr'; simpl; rewrite Hrr'; lia|].
+    right. exists r', rr'. repeat split; try assumption. lia.
+  - rewrite Nat.add_0_r. split; [lia|]. destruct G2 as [G2|[r [rr [Hr [Hrr [Hi Hle]]]]]]; [left; exact G2|right].
+    destruct (Mo _ _ Hr) as [r' [Hr' [_ [_ Hm]]]]. rewrite Hrr in Hm.
+    destruct (r_retry r') as [rr'|] eqn:Hrr'; simpl in Hm; [|tauto]. destruct Hm as [Hc _].
+    exists r', rr'. rewrite Hc. auto.
+Qed.
+
+Lemma entries_inv : forall idx t0 ops c k, Forall op_external ops -> good t0 k c idx ->
+  good t0 (k + entries ops c idx) (run_ops ev ops c) idx.
+Proof.
+  intros idx t0; induction ops as [|op ops IH]; intros c k Hx Hg; simpl.
+  - rewrite Nat.add_0_r; exact Hg.
+  - inversion Hx as [|x l Hop Hops]; subst. unfold run_ops; simpl. rewrite Nat.add_assoc.
+    apply IH; [exact Hops|]. apply good_step; [|exact Hg].
+    destruct (api_exec ev op c) as [c' r] eqn:E. simpl. eapply api_exec_ent; eassumption.
+Qed.
+
+(* from any state on: the initial tally plus the number of entries into retrying never exceeds the tally
+   reached, and -- when there was an entry at all -- never exceeds the (integer) count *)
+Theorem retry_entries_bounded : forall ops c idx, Forall op_external ops ->
+  good (tal c idx) (entries ops c idx) (run_ops ev ops c) idx.
+Proof.
+  intros ops c idx Hx. apply (entries_inv idx (tal c idx) ops c 0 Hx). split; [lia|left; reflexivity].
+Qed.
+
+(* the form of the property text: at most max(count, 0) retried executions of a record that starts at
+   tally 0 (in particular every record of a history that starts with no record) *)
+Corollary retry_entries_at_most_count : forall ops c idx r rr, Forall op_external ops -> tal c idx = 0 ->
+  rec_at (run_ops ev ops c) idx = Some r -> r_retry r = Some rr ->
+  (Z.of_nat (entries ops c idx) <= Z.max (py_int_value (rr_count rr)) 0)%Z /\ entries ops c idx <= rr_tally rr.
+Proof.
+  intros ops c idx r rr Hx H0 Hr Hrr. destruct (retry_entries_bounded ops c idx Hx) as [G1 G2].
+  rewrite H0 in *. cbn [Nat.add] in *. unfold tal in G1. rewrite Hr in G1. simpl in G1. rewrite Hrr in G1.
+  split; [|exact G1]. destruct G2 as [G2|[r' [rr' [Hr' [Hrr' [_ Hle]]]]]]; [rewrite G2; simpl; lia|].
+  rewrite Hr in Hr'; inversion Hr'; subst r'. rewrite Hrr in Hrr'; inversion Hrr'; subst rr'. lia.
+Qed.
+
+Corollary no_retry_no_entries : forall ops c idx, Forall op_external ops ->
+  (forall r, rec_at (run_ops ev ops c) idx = Some r -> r_retry r = None) -> entries ops c idx = 0.
+Proof.
+  intros ops c idx Hx Hn. destruct (retry_entries_bounded ops c idx Hx) as [_ [G|[r [rr [Hr [Hrr _]]]]]]; [exact G|].
+  rewrite (Hn _ Hr) in Hrr; discriminate.
+Qed.
+
+Lemma empty_tal : forall c idx, sequence (c_ws c) = [] -> tal c idx = 0.
+Proof. intros c idx H; unfold tal, rec_at; rewrite H. destruct idx; reflexivity. Qed.
+
+(* new records start at tally 0 *)
+Theorem new_record_tally_zero : forall t rt ins prev c c' idx,
+  add_task_state ev t rt ins prev c = (c', Val idx) ->
+  exists r, rec_at c' idx = Some r /\ r_status r = None /\ tal c' idx = 0.
+Proof.
+  intros t rt ins prev c c' idx H. destruct (add_task_state_inv _ _ _ _ _ _ _ _ H) as [r [Hn [Hs [Hf _]]]].
+  exists r. split; [exact Hn|]. split; [exact Hs|]. unfold tal, rec_at. rewrite Hn. simpl.
+  destruct (r_retry r) as [rr|] eqn:E; [apply Hf; reflexivity|reflexivity].
+Qed.
+
+End History.
+
+(* decidable form of the hypothesis on histories *)
+Definition op_external_b (op : api_op) : bool :=
+  match op with OpEvent _ _ e => external_event e | _ => true end.
+Lemma ops_external_b_sound : forall ops, forallb op_external_b ops = true -> Forall op_external ops.
+Proof.
+  intros ops H. apply Forall_forall. intros op Hin. rewrite forallb_forall in H. specialize (H _ Hin).
+  destruct op; simpl in *; auto.
+Qed.
